@@ -178,6 +178,16 @@ class PathResult:
                 return True
         return False
 
+    def early_loop_exit(self):
+        """Did the path break out of a loop while its iterator still had an element (a `break` / `return` inside a `for` body)?"""
+        last = None
+        for e in self.trace:
+            if e[0] == "next":
+                last = e[2]
+            elif e[0] == "loop-exit" and last == "Some":
+                return True
+        return self.end == "return" and last == "Some"
+
     def assigns(self, name=None):
         return [e for e in self.trace if e[0] == "assign" and (name is None or e[1] == name)]
 
@@ -1052,7 +1062,9 @@ class Interp:
 
     def iter_next(self, a, n, d):
         if self.choose(2, "next") == 0:
+            self.trace.append(("next", a[0], "Some"))
             return some(self.elem_of(a[0], n, d))
+        self.trace.append(("next", a[0], "None"))
         return NONE
 
     def std_bool_then(self, a, n, d):
